@@ -419,3 +419,104 @@ func unwrapAlloc(v ssa.Value) *ssa.Alloc {
 		}
 	}
 }
+
+// ---------------------------------------------------------------------------
+// edge-fact path rules (E3 + E4)
+
+// edgeFactsOn: the facts established by taking the CFG edge from->to (from ends in an If).
+func (t *Terms) edgeFactsOn(from, to *ssa.BasicBlock) []Fact {
+	if len(from.Instrs) == 0 {
+		return nil
+	}
+	iff, ok := from.Instrs[len(from.Instrs)-1].(*ssa.If)
+	if !ok || from.Succs[0] == from.Succs[1] {
+		return nil
+	}
+	return t.condFacts(iff.Cond, to == from.Succs[0])
+}
+
+// mustCross: every path from `from` (nil = entry) to an instruction satisfying target crosses an edge whose
+// facts satisfy pred (or executes an instruction satisfying via). Returns false with a witness path otherwise.
+func mustCross(T *Terms, fn *ssa.Function, from ssa.Instruction, target func(ssa.Instruction) bool, via func(ssa.Instruction) bool, pred func([]Fact) bool) (bool, []ssa.Instruction) {
+	r, w := reachInstr(fn, from, target, via, func(a, b *ssa.BasicBlock) bool {
+		fs := T.edgeFactsOn(a, b)
+		return len(fs) > 0 && pred(fs)
+	})
+	return !r, w
+}
+
+// isNilErrorReturn: a return whose last result is the nil error constant (a success return).
+func isNilErrorReturn(in ssa.Instruction) bool {
+	ret, ok := in.(*ssa.Return)
+	if !ok || len(ret.Results) == 0 {
+		return false
+	}
+	c, ok := ret.Results[len(ret.Results)-1].(*ssa.Const)
+	return ok && c.IsNil()
+}
+
+// returnsSuccess: success returns of fn, also through a named-result spill (`*t1 = nil; rundefers; return *t1`).
+func successReturns(T *Terms, fn *ssa.Function) []ssa.Instruction {
+	var out []ssa.Instruction
+	for _, b := range fn.Blocks {
+		for i, in := range b.Instrs {
+			ret, ok := in.(*ssa.Return)
+			if !ok || len(ret.Results) == 0 {
+				continue
+			}
+			last := ret.Results[len(ret.Results)-1]
+			if c, ok := last.(*ssa.Const); ok && c.IsNil() {
+				out = append(out, in)
+				continue
+			}
+			// spilled result: find the last store to the same alloc in this block before the return
+			if u, ok := last.(*ssa.UnOp); ok {
+				if a, ok := u.X.(*ssa.Alloc); ok {
+					for j := i - 1; j >= 0; j-- {
+						if st, ok := b.Instrs[j].(*ssa.Store); ok && st.Addr == ssa.Value(a) {
+							if c, ok := st.Val.(*ssa.Const); ok && c.IsNil() {
+								out = append(out, in)
+							}
+							break
+						}
+					}
+				}
+			}
+		}
+	}
+	return out
+}
+
+// returnedValues: for every return of fn, the value returned in result slot idx, seen through named-result spills.
+type retVal struct {
+	Ret *ssa.Return
+	Val ssa.Value
+}
+
+func returnedValues(fn *ssa.Function, idx int) []retVal {
+	var out []retVal
+	for _, b := range fn.Blocks {
+		if b == fn.Recover {
+			continue
+		}
+		for i, in := range b.Instrs {
+			ret, ok := in.(*ssa.Return)
+			if !ok || len(ret.Results) <= idx {
+				continue
+			}
+			v := ret.Results[idx]
+			if u, ok := v.(*ssa.UnOp); ok {
+				if a, ok := u.X.(*ssa.Alloc); ok {
+					for j := i - 1; j >= 0; j-- {
+						if st, ok := b.Instrs[j].(*ssa.Store); ok && st.Addr == ssa.Value(a) {
+							v = st.Val
+							break
+						}
+					}
+				}
+			}
+			out = append(out, retVal{ret, v})
+		}
+	}
+	return out
+}
